@@ -5,7 +5,9 @@ import Bpmn.Model.Engine
 The property (DESIGN §8 C01/C05, §12.1) allows an inclusive join to release anywhere between
 
 * `early` — no live token outside the gateway can still reach it (`Cfg.ideal`), and
-* `late && early` — additionally every live token of the fork activation has arrived (`Cfg.idealLate`).
+* `late && early` — additionally every live token of the fork activation has arrived (`Cfg.idealLate`); this late
+  bound exists only for gateways with two or more incoming flows (`Engine.lateAt`): a gateway with a single incoming
+  flow is a pure fork, has no join clause and must forward at once, so for it the interval collapses to `early`.
 
 `Cfg.ideal` and `Cfg.idealLate` are the two extreme deterministic token games. The specification itself is the
 family of token games in which EVERY SINGLE join decision lies in that interval. It is written here as the engine
@@ -139,7 +141,7 @@ def Join.Admissible (J : Join) : Prop :=
     | none => J p s n g work = false
     | some a =>
       (J p s n g work = true → earlyAt p s n g work = true) ∧
-      (lateReady s a g.arrived work = true → earlyAt p s n g work = true → J p s n g work = true)
+      (lateAt s n a g.arrived work = true → earlyAt p s n g work = true → J p s n g work = true)
 
 /-- release as early as allowed: the policy of `Cfg.ideal` -/
 def Join.early : Join := fun p s n g work =>
@@ -151,14 +153,14 @@ def Join.early : Join := fun p s n g work =>
 def Join.late : Join := fun p s n g work =>
   match g.activated with
   | none => false
-  | some a => lateReady s a g.arrived work && earlyAt p s n g work
+  | some a => lateAt s n a g.arrived work && earlyAt p s n g work
 
 /-- the tracker's cohort (what the code awaits), clamped into the interval -/
 def Join.cohortClamped : Join := fun p s n g work =>
   match g.activated with
   | none => false
   | some a =>
-    ((Engine.cohort s a).all (g.arrived.contains ·) || lateReady s a g.arrived work) && earlyAt p s n g work
+    ((Engine.cohort s a).all (g.arrived.contains ·) || lateAt s n a g.arrived work) && earlyAt p s n g work
 
 /-- the join policy a code configuration follows as long as it logs no cause -/
 def joinOf (cfg : Cfg) : Join := if cfg.inclCohort then Join.cohortClamped else Join.early
